@@ -114,6 +114,9 @@ func c01Alphabet() []*sessmc.Event {
 	a = append(a, sessmc.EvSeqReset(1, 0, "Y", false)) // early gap fill that fills nothing
 	a = append(a, sessmc.EvIn("2", 0, false, fixscan.Field{7, "1"}, fixscan.Field{16, "0"}))
 	a = append(a, sessmc.EvIn("5", 0, false), sessmc.EvIn("3", 0, false, fixscan.Field{45, "1"}))
+	// a ResendRequest is answered whatever its number; numbered above the expected one (the peer's request overtakes a
+	// hole in its own stream) or below it (replayed) it consumes no number
+	a = append(a, sessmc.EvIn("2", 1, false, fixscan.Field{7, "1"}, fixscan.Field{16, "0"}), sessmc.EvIn("2", -1, true, fixscan.Field{7, "1"}, fixscan.Field{16, "0"}))
 	// administrative messages numbered above the expected one (they open a recovery like any other message)
 	a = append(a, sessmc.EvIn("3", 1, false, fixscan.Field{45, "1"}), sessmc.EvIn("1", 1, false, fixscan.Field{112, "X"}), sessmc.EvIn("j", 1, false, fixscan.Field{45, "1"}, fixscan.Field{372, "D"}, fixscan.Field{380, "3"}))
 	a = append(a, sessmc.EvLogon(0, 0, ""), sessmc.EvLogon(1, 0, ""), sessmc.EvLogon(0, 1, "Y"))
